@@ -30,15 +30,7 @@ func (s *Service) scoreBeaconBlockProposal(_ context.Context,
 		return 0
 	}
 
-	// Either value may be absent, in which case it counts as 0.
-	value := new(big.Int)
-	if blockProposal.ConsensusValue != nil {
-		value.Add(value, blockProposal.ConsensusValue)
-	}
-	if blockProposal.ExecutionValue != nil {
-		value.Add(value, blockProposal.ExecutionValue)
-	}
-	score, _ := value.Float64()
+	score, _ := proposalValue(blockProposal).Float64()
 
 	s.log.Trace().
 		Str("name", name).
@@ -48,4 +40,18 @@ func (s *Service) scoreBeaconBlockProposal(_ context.Context,
 		Msg("Scored block")
 
 	return score
+}
+
+// proposalValue returns the total value of a proposal.
+// Either value may be absent, in which case it counts as 0.
+func proposalValue(blockProposal *api.VersionedProposal) *big.Int {
+	value := new(big.Int)
+	if blockProposal.ConsensusValue != nil {
+		value.Add(value, blockProposal.ConsensusValue)
+	}
+	if blockProposal.ExecutionValue != nil {
+		value.Add(value, blockProposal.ExecutionValue)
+	}
+
+	return value
 }
